@@ -104,7 +104,8 @@ def kindTy : Kind → Option Ty
   | .typed t => some t
   | _ => none
 
-/-- `node.set_value()` on the first occurrence (repaired setters) -/
+/-- `node.set_value()` on the first occurrence (repaired setters; `has_raw_value`: a raw value is
+    missing when it is None or the empty placeholder text, except for str where the empty text is a value) -/
 def initValue (P : Params) (ty : Ty) (dims : Option (List Dim)) : Option Raw → R (Option Val)
   | none => .ok none
   | some (.cells _ []) => .ok none
